@@ -214,11 +214,18 @@ def gen(rng, focus, k=None, maxops=40):
                 o = f"send {c} #{s} #{t} pid:1 9{rng.randint(1000, 9999)}:20:150:0"
             emit(o)
         elif kind == "restart":
+            live = [u for u in users if u != "_deleted"]
             emit("users 0")
+            for u in live:
+                emit(f"user 0 @{u}")        # status and the whole permission record, before and after
+            emit("pats 0")
             emit("restart")
             conns = {0: "iggy"}
             emit("me 0")
             emit("users 0")
+            for u in live:
+                emit(f"user 0 @{u}")
+            emit("pats 0")
     # secrets must not be in any file
     for pw in secrets[:6]:
         emit(f"scan-str {pw}")
